@@ -1,6 +1,7 @@
 import GlueVerif.Sexp
 import GlueVerif.Model.Coords
 import GlueVerif.Model.C16FRB
+import GlueVerif.Model.C16Links
 import GlueVerif.Model.C16Image
 /-! Line-protocol driver for C16 (fixed-resolution buffer, its caches, image layer states). -/
 open GlueVerif GlueVerif.Sexp GlueVerif.FRB
@@ -105,27 +106,6 @@ def dataset? : Sexp → Option DsIn
     some ⟨⟨shape, cs⟩, coord⟩
   | _ => none
 
-/-- World coordinate `a` (numpy order) of a dataset with affine coordinates, as a leaf:
-coefficients per numpy pixel axis, constant, and `dependent_axes(coords, a)` (C15 model). -/
-def worldLeaf (c : Coords.Coord) (a : Nat) : Deriv :=
-  let n := c.n
-  match c with
-  | .identity _ => .world ((List.range n).map fun j => if j = a then 1 else 0) 0 (Coords.Impl.dependentAxes c a)
-  | .affine _ m _ =>
-    .world ((List.range n).map fun j => Coords.ent m (n - 1 - a) (n - 1 - j)) (Coords.ent m (n - 1 - a) n)
-      (Coords.Impl.dependentAxes c a)
-
-/-- The world→pixel `CoordinateComponentLink` of a dataset for pixel axis `k`: `_from` = the world
-ids listed by `from_needed = dependent_axes(coords, k)`, `using` = row `k` of the inverse. -/
-def w2pNode (c : Coords.Coord) (k : Nat) (froms : List (Nat × Deriv)) : Deriv :=
-  let n := c.n
-  let needed := Coords.Impl.dependentAxes c k
-  let const : Rat := match c with
-    | .identity _ => 0
-    | .affine _ _ inv => Coords.ent inv (n - 1 - k) n
-  let fs := needed.map fun i => (froms.lookup i).getD .missing
-  .via (needed.map fun i => c.invEnt (n - 1 - k) (n - 1 - i)) const fs
-
 partial def deriv? (dss : List DsIn) : Sexp → Option Deriv
   | .list [.atom "p", k] => do some (.pixel (← k.toNat?))
   | .list [.atom "v", coefs, c, fs] => do
@@ -202,7 +182,7 @@ def countHits : World → Impl.Caches → List Impl.Op → Nat
   | _, _, [] => 0
   | w, c, .req r :: ops =>
     let hit := match r.cacheId with
-      | some id => boundsValid r.bounds && (match c.array id with | some e => e.matches r | none => false)
+      | some id => boundsValid r.bounds && (Impl.arrayHit c id r).isSome
       | none => false
     (if hit then 1 else 0) + countHits w (Impl.frb w c r).2 ops
   | w, c, .editState sid e :: ops =>
